@@ -12,7 +12,7 @@ cleanup() { git -C /repo worktree remove --force "$wt" >/dev/null 2>&1; }
 trap cleanup EXIT
 cd "$wt"
 applies=false; builds=false; suite=false; demo_fails=false; demo_passes=false
-if git apply "$src/patch.diff" 2>/dev/null; then applies=true; fi
+if "$tools/apply_seed.sh" "$wt" "$src/patch.diff"; then applies=true; fi
 if go build ./... >/dev/null 2>&1 && go build -tags verif ./... >/dev/null 2>&1; then builds=true; fi
 out="$(mktemp)"
 go test -json -vet=off -count=1 ./... > "$out" 2>&1
